@@ -294,3 +294,222 @@ def else_guard(prog):
                       '' if ok else '.%s outside a conditional block is no longer rejected' % word,
                       'ifdef_count < 1 -> error return', False))
     return RuleResult('ELSE-GUARD', obs, 2, {})
+
+
+def ifdef_raw(prog):
+    """IFDEF-RAW: while a condition is being read (parsing_ifdef != 0) tokens_get() hands out names as they are written:
+    the statement that replaces a known symbol by its address text and the macro expansion are both control-dependent on
+    a test of `parsing_ifdef == 0`.  Otherwise `defined(label)` / `.ifdef label` see a number instead of the name."""
+    from rules.passsize import control_deps
+    fn = prog.fn('tokens_get')
+    cd, succ = control_deps(fn, set())
+
+    def guarded(b):
+        seen = set()
+        st = [b]
+        while st:
+            x = st.pop()
+            for (pc, ps_) in cd.get(x, ()):
+                if (pc, ps_) in seen:
+                    continue
+                seen.add((pc, ps_))
+                cn = fn.nodes.get(fn.blocks[pc].get('cond')) if 'cond' in fn.blocks[pc] else None
+                if cn is not None:
+                    own = strip(cn)
+                    while own['k'] == 'BinaryOperator' and own.get('op') in ('&&', '||'):
+                        own = strip(kids(own)[1])
+                    if own['k'] == 'BinaryOperator' and own.get('op') in ('==', '!=') and 'parsing_ifdef' in show(kids(own)[0]) and const(kids(own)[1]) == 0:
+                        true_edge = ps_ == succ[pc][0]
+                        if (own['op'] == '==') == true_edge:
+                            return True
+                st.append(pc)
+        return False
+    obs = []
+    # (a) symbol substitution: snprintf(token, len, "%d", address)
+    subs = [c for c in fn.calls() if callee(c) == 'snprintf' and len(call_args(c)) == 4 and
+            strip(call_args(c)[3], casts=True).get('n') == 'address' and strip(call_args(c)[0], casts=True).get('n') == 'token']
+    # (b) macro expansion
+    exps = [c for c in fn.calls() if callee(c) in ('macros_push_define', 'macros_expand_params')]
+    if not subs or not exps:
+        raise AnalysisBroken('IFDEF-RAW: symbol substitution (%d) / macro expansion (%d) sites of tokens_get not found' % (len(subs), len(exps)))
+    # `if (parsing_ifdef != 0) { macro = NULL; }` ahead of `if (macro != NULL)` guards the expansion through the data
+    def nulled_under_ifdef():
+        from nk.tables import is_null
+        for n in fn.nodes.values():
+            if n['k'] == 'BinaryOperator' and n.get('op') == '=' and strip(kids(n)[0], casts=True).get('n') == 'macro' and is_null(kids(n)[1]):
+                w = fn.where.get(n['i'])
+                if w is None:
+                    continue
+                for (pc, ps_) in cd.get(w[0], ()):
+                    cn = fn.nodes.get(fn.blocks[pc].get('cond')) if 'cond' in fn.blocks[pc] else None
+                    if cn is None:
+                        continue
+                    own = strip(cn)
+                    if own['k'] == 'BinaryOperator' and own.get('op') in ('==', '!=') and 'parsing_ifdef' in show(kids(own)[0]) and const(kids(own)[1]) == 0:
+                        if (own['op'] == '!=') == (ps_ == succ[pc][0]):
+                            return True
+        return False
+    macro_nulled = nulled_under_ifdef()
+    for kind, sites in (('symbol-substitution', subs), ('macro-expansion', exps)):
+        bad = [c for c in sites if not guarded(fn.where[c['i']][0])]
+        if kind == 'macro-expansion' and macro_nulled:
+            bad = []
+        c0 = (bad or sites)[0]
+        obs.append(Ob('IFDEF-RAW', fn.file, c0['l'], fn.q, kind, VIOLATED if bad else DISCHARGED,
+                      '`%s` is not behind a `parsing_ifdef == 0` test: inside .if / .ifdef / defined() a known name is replaced '
+                      'before the condition code looks it up' % show(c0)[:50] if bad else '',
+                      '%d site(s), all behind parsing_ifdef == 0' % len(sites)))
+    return RuleResult('IFDEF-RAW', obs, 2, {})
+
+
+def tok_op(prog):
+    """TOK-OP: tokens_get() builds the two-character comparison operators from the two characters read: in the branch
+    taken when the second character is '=' the character appended is that second character (`>=`, `<=`, `==`), not the
+    first one again."""
+    fn = prog.fn('tokens_get')
+    obs = []
+    for n in fn.nodes.values():
+        if n['k'] != 'IfStmt':
+            continue
+        ks = [x for x in kids(n) if x is not None]
+        c = strip(ks[0])
+        if not (c['k'] == 'BinaryOperator' and c.get('op') == '==' and const(kids(c)[1]) == ord('=') and
+                strip(kids(c)[0], casts=True)['k'] == 'DeclRefExpr'):
+            continue
+        second = strip(kids(c)[0], casts=True)
+        # the declaration of `second` must be read right before (ch1 = tokens_get_char)
+        appends = [x for x in walk(ks[1]) if x['k'] == 'BinaryOperator' and x.get('op') == '=' and
+                   strip(kids(x)[0])['k'] == 'ArraySubscriptExpr' and strip(kids(strip(kids(x)[0]))[0], casts=True).get('n') == 'token']
+        if not appends:
+            continue
+        v = strip(kids(appends[0])[1], casts=True)
+        ok = (v['k'] == 'DeclRefExpr' and v.get('d') == second.get('d')) or const(kids(appends[0])[1]) == ord('=')
+        obs.append(Ob('TOK-OP', fn.file, appends[0]['l'], fn.q, 'second-char:%s' % second.get('n'), DISCHARGED if ok else VIOLATED,
+                      '' if ok else 'when `%s == \'=\'` the tokeniser appends `%s` instead: ">=" and "<=" become ">>" and "<<", which the '
+                      '.if evaluator does not know' % (second.get('n'), show(kids(appends[0])[1])), 'appends the character it tested'))
+    if not obs:
+        raise AnalysisBroken('TOK-OP: the `ch1 == \'=\'` branch of tokens_get was not found')
+    return RuleResult('TOK-OP', obs, 1, {})
+
+
+def ret_store(prog):
+    """RET-STORE: parse_ifdef_expression() hands its value back through *num: every `return 0` is in a block that stores
+    `*num` first (a level that returns to a lower-precedence operator without storing leaves the caller with the left
+    operand instead of the comparison's result)."""
+    fns = [f for f in prog.by_name.get('parse_ifdef_expression', []) if f.file == 'core/ifdef_expression.cpp']
+    if not fns:
+        raise AnalysisBroken('RET-STORE: parse_ifdef_expression not found')
+    fn = fns[0]
+    ps = fn.params()
+    outp = [p for p in ps if p['n'] == 'num']
+    if not outp:
+        raise AnalysisBroken('RET-STORE: no `num` parameter')
+    obs = []
+    k = 0
+    for n in sorted(fn.nodes.values(), key=lambda x: x['i']):
+        if n['k'] != 'ReturnStmt' or not kids(n) or const(kids(n)[0]) != 0:
+            continue
+        w = fn.where.get(n['i'])
+        if w is None:
+            continue
+        k += 1
+        stored = False
+        for e in fn.blocks[w[0]]['e'][:w[1]]:
+            x = fn.nodes.get(e)
+            if x is not None and x['k'] == 'BinaryOperator' and x.get('op') == '=':
+                l = strip(kids(x)[0])
+                if l['k'] == 'UnaryOperator' and l.get('op') == '*' and strip(kids(l)[0], casts=True).get('d') == outp[0]['d']:
+                    stored = True
+        obs.append(Ob('RET-STORE', fn.file, n['l'], fn.q, 'return-0#%d' % k, DISCHARGED if stored else VIOLATED,
+                      '' if stored else 'this `return 0` does not store *num: the value computed at this precedence level is lost and the '
+                      'caller continues with the operand it had before (`.if 2 < 1 || 0` is true)', '*num stored before the return'))
+    if k < 3:
+        raise AnalysisBroken('RET-STORE: only %d success returns in parse_ifdef_expression' % k)
+    return RuleResult('RET-STORE', obs, 3, {})
+
+
+def endif_protocol(prog):
+    """ENDIF-PROTOCOL: a branch that is being assembled ends at its .endif and nowhere else:
+    (a) the .endif directive makes parse_directives() return a code that AsmContext::assemble() turns into a non-zero
+        return (so the assemble() call started for the branch stops there), and
+    (b) in parse_ifdef_ignore() an assemble() that comes back with 0 (end of file) is an error: every path on which the
+        result is 0 ends in `return -1`."""
+    obs = []
+    pd = prog.fn('parse_directives')
+    code = None
+    for n in pd.nodes.values():
+        if n['k'] == 'IfStmt':
+            ks = [x for x in kids(n) if x is not None]
+            if '"endif"' in show(ks[0]) and 'strcmp' in show(ks[0]):
+                rets = [x for x in walk(ks[1]) if x['k'] == 'ReturnStmt' and kids(x)]
+                vals = [const(kids(x)[0]) for x in rets]
+                code = [v for v in vals if v not in (-1, None)]
+    if code is None:
+        raise AnalysisBroken('ENDIF-PROTOCOL: .endif branch of parse_directives not found')
+    asm = prog.fn('AsmContext::assemble')
+    mapped = None
+    for n in asm.nodes.values():
+        if n['k'] == 'IfStmt':
+            ks = [x for x in kids(n) if x is not None]
+            c = strip(ks[0])
+            if c['k'] == 'BinaryOperator' and c.get('op') == '==' and code and const(kids(c)[1]) == code[-1] and code[-1] != 0:
+                rets = [x for x in walk(ks[1]) if x['k'] == 'ReturnStmt' and kids(x)]
+                if rets:
+                    mapped = const(kids(rets[0])[0])
+    ok = bool(code) and code[-1] not in (0, None) and mapped not in (None, 0, -1)
+    obs.append(Ob('ENDIF-PROTOCOL', pd.file, pd.line, 'parse_directives', 'endif-ends-branch', DISCHARGED if ok else VIOLATED,
+                  '' if ok else '.endif returns %s from parse_directives() and assemble() maps it to %s: the assemble() call of a taken '
+                  'branch does not stop at .endif, so a missing or surplus .endif cannot be noticed' % (code, mapped),
+                  '.endif returns %s, assemble() returns %s' % (code, mapped)))
+    # (b)
+    fn = prog.fn('parse_ifdef_ignore')
+    calls = [c for c in fn.calls() if (callee(c) or '').split('(')[0] == 'AsmContext::assemble']
+    if not calls:
+        raise AnalysisBroken('ENDIF-PROTOCOL: parse_ifdef_ignore does not call assemble()')
+    k = 0
+    for c in sorted(calls, key=lambda x: x['i']):
+        k += 1
+        p = fn.parent.get(c['i'])
+        while p is not None and p['k'] in ('ImplicitCastExpr', 'ParenExpr'):
+            p = fn.parent.get(p['i'])
+        var = None
+        if p is not None and p['k'] == 'BinaryOperator' and p.get('op') == '=':
+            var = strip(kids(p)[0], casts=True).get('d')
+        elif p is not None and p['k'] == 'DeclStmt':
+            var = p['decls'][0]['d'] if p.get('decls') else None
+        w = fn.where.get(c['i'])
+        bad = None
+        if var is None or w is None:
+            bad = 'the result of assemble() is not kept in a variable that is tested'
+        else:
+            # follow the CFG with var == 0
+            seen = set()
+            st = [w[0]]
+            first = True
+            while st and bad is None:
+                b = st.pop()
+                if b in seen:
+                    continue
+                seen.add(b)
+                bb = fn.blocks[b]
+                rets = [fn.nodes[e] for e in bb['e'] if e in fn.nodes and fn.nodes[e]['k'] == 'ReturnStmt']
+                if rets and not (first and fn.where[rets[0]['i']][1] < w[1]):
+                    v = const(kids(rets[0])[0]) if kids(rets[0]) else None
+                    if v != -1:
+                        bad = 'with assemble() == 0 (end of file inside the branch) the function reaches `return %s` at line %d' % (v, rets[0]['l'])
+                    continue
+                first = False
+                cn = fn.nodes.get(bb.get('cond')) if 'cond' in bb else None
+                nxt = list(bb['s'])
+                if cn is not None and len(nxt) == 2:
+                    own = strip(cn)
+                    while own['k'] == 'BinaryOperator' and own.get('op') in ('&&', '||'):
+                        own = strip(kids(own)[1])
+                    if own['k'] == 'BinaryOperator' and own.get('op') in ('==', '!=') and \
+                            strip(kids(own)[0], casts=True).get('d') == var and const(kids(own)[1]) is not None:
+                        t = (0 == const(kids(own)[1])) == (own['op'] == '==')
+                        nxt = [nxt[0]] if t else [nxt[1]]
+                st.extend(x for x in nxt if x is not None)
+        obs.append(Ob('ENDIF-PROTOCOL', fn.file, c['l'], fn.q, 'eof-in-branch#%d' % k, VIOLATED if bad else DISCHARGED, bad or '',
+                      'assemble() == 0 leads to return -1'))
+    return RuleResult('ENDIF-PROTOCOL', obs, 3, {})
